@@ -917,21 +917,23 @@ class _Enc:
             ls = self.modal.get("path_ext_s", _UNDEF) == s
             le = self.modal.get("path_ext_e", _UNDEF) == e
             self.modal["path_ext_s"], self.modal["path_ext_e"] = s, e
-            ext = _UNDEF
+            # choice points: E bit off (both reused) | per end: scheme 0 (reuse) | 1 flush | 2 half-width | 3 explicit
             if ls and le:
                 self.eligible.append(key + ".ext")
-                if self.want(key + ".ext"):
-                    self.taken.append(key + ".ext")
-                    self.features.add("modal")
-                    ext = None
-            if ext is _UNDEF:
+            if ls:
+                self.eligible.append(key + ".ext_s")
+            if le:
+                self.eligible.append(key + ".ext_e")
+            if ls and le and self.want(key + ".ext"):
+                self.taken.append(key + ".ext")
+                self.features.add("modal")
+                ext = None
+            else:
                 def code(legal, want_code, val, sub):
-                    if legal:
-                        self.eligible.append(key + sub)
-                        if want_code == 0 or self.want(key + sub):
-                            self.taken.append(key + sub)
-                            self.features.add("modal")
-                            return 0
+                    if legal and (want_code == 0 or self.want(key + sub)):
+                        self.taken.append(key + sub)
+                        self.features.add("modal")
+                        return 0
                     if want_code == 1 and val == 0:
                         return 1
                     if want_code == 2 and val == el["hw"]:
